@@ -161,6 +161,8 @@ def warm_cfg(g, pre):
             g.derivative(sorted(g.V, key=repr)[0])
         elif name == "materialize":
             g.materialize(1)
+        elif name == "add_eos_custom":
+            add_EOS(g, eos="$")                  # the grammar was wrapped with another end symbol before
         elif name in ("cnf", "prefix_grammar", "rhs"):
             getattr(g, name)
         else:
@@ -460,7 +462,7 @@ def _dist(g, lm, p):
 
 
 def f_pnext(a):
-    g = build(a["G"], a["sr"], a.get("names", "str"))
+    g = build(a["G"], a["sr"], a.get("names", "str"), a.get("pre"))
     lm = _lm(a["backend"], g)
     ctx = ustr(a["ctx"])
     for pre in a.get("warm", []):          # earlier queries on the same object (history must not matter)
@@ -507,7 +509,7 @@ def f_ntw_vs_parser(a):
 
 
 def f_lmcall(a):
-    g = build(a["G"], a["sr"], a.get("names", "str"))
+    g = build(a["G"], a["sr"], a.get("names", "str"), a.get("pre"))
     lm = _lm(a["backend"], g)
     s = ustr(a["s"])
     v = lm(s + (EOS,))
@@ -523,7 +525,7 @@ def f_sample(a):
 
     script entries are token names (a behaviour generated by TLC) or integers (an index into the support the CODE offers,
     for random walks); when the script is used up, end-of-sequence is drawn."""
-    g = build(a["G"], a["sr"], a.get("names", "str"))
+    g = build(a["G"], a["sr"], a.get("names", "str"), a.get("pre"))
     lm = _lm(a["backend"], g)
     script = list(a["script"])
     steps = []
@@ -551,7 +553,7 @@ def f_sample(a):
 
 
 def f_pnextseq(a):
-    g = build(a["G"], a["sr"], a.get("names", "str"))
+    g = build(a["G"], a["sr"], a.get("names", "str"), a.get("pre"))
     lm = _lm(a["backend"], g)
     v = lm.p_next_seq(ustr(a["ctx"]), ustr(a["ext"]))
     return {"op": "pnextseq", "sr": srmodel(a["sr"]), "G": a["G"], "ctx": a["ctx"], "ext": a["ext"], "res": enc_w(g.R, v)}
@@ -595,7 +597,20 @@ def f_treesumrl(a):
     return {"op": "treesumrl", "sr": "Rat", "G": G, "chart": [[x, enc_w(us.Float, float(ch[x]))] for x in nts]}
 
 
-FUNCS = {"sample": f_sample, "treesumrl": f_treesumrl, "pnextrl": f_pnextrl, "pnextseq": f_pnextseq, "mapbool": f_mapbool, "pnext": f_pnext, "ntw": f_ntw, "ntw_vs_parser": f_ntw_vs_parser, "lmcall": f_lmcall,"parse": f_parse, "prefix": f_prefix, "prefixgrammar": f_prefixgrammar, "derivative": f_derivative,
+def f_normalizerl(a):
+    """locally_normalize on a float-weighted PROPER right-linear grammar with recursion (every total is one, so the
+    result must carry the input's weights): the cyclic counterpart of the exact-rational normalize events."""
+    G = a["G"]
+    g = CFG(R=us.Float, S=G["S"], V={unt(x) for x in G["V"]})
+    for r in G["rules"]:
+        g.add(float(Fraction(*r["w"])), r["h"], *[unt(y) if y in G["V"] else y for y in r["b"]])
+    out = locally_normalize(g)
+    rules = [{"w": enc_w(us.Float, float(r.w)), "h": r.head, "b": [tname(y) if y in g.V else y for y in r.body]}
+             for r in out.rules]
+    return {"op": "normalizerl", "sr": "Rat", "G": G, "out": {"S": out.S, "V": G["V"], "rules": rules}}
+
+
+FUNCS = {"normalizerl": f_normalizerl, "sample": f_sample, "treesumrl": f_treesumrl, "pnextrl": f_pnextrl, "pnextseq": f_pnextseq, "mapbool": f_mapbool, "pnext": f_pnext, "ntw": f_ntw, "ntw_vs_parser": f_ntw_vs_parser, "lmcall": f_lmcall,"parse": f_parse, "prefix": f_prefix, "prefixgrammar": f_prefixgrammar, "derivative": f_derivative,
          "transform": f_transform, "treesum": f_treesum, "lang": f_lang, "mask": f_mask, "addeos": f_addeos,
          "normalize": f_normalize, "derivcall": f_derivcall, "explen": f_explen}
 
@@ -655,7 +670,7 @@ def event(fn, args, site=None, feat=None, timeout=30):
     for key in ("out", "G"):
         # a grammar the code produced whose weights exist only in floating point (Log semiring: no small rational
         # within 1e-12) cannot be evaluated by the exact oracle: counted, not judged
-        if isinstance(e.get(key), dict) and any(isinstance(r.get("w"), list) and len(r["w"]) == 3 for r in e[key].get("rules", [])):
+        if e.get("op") != "normalizerl" and isinstance(e.get(key), dict) and any(isinstance(r.get("w"), list) and len(r["w"]) == 3 for r in e[key].get("rules", [])):
             e["skip"] = "numeric-range"
     return e
 
